@@ -430,6 +430,34 @@ impl ServerProc {
         let port = w.get("port").and_then(|p| p.parse().ok()).unwrap_or(0);
         Ok(ServerProc { child: Some(child), pid, dir, port })
     }
+    /// Start the server (file source) with the given signals inherited as IGNORED, as a process
+    /// started under nohup (SIGHUP) or as a background job of a non-interactive shell (SIGINT) is.
+    pub fn start_ignoring(w: &Written, ignored: &[i32]) -> Result<ServerProc, String> {
+        use std::os::unix::process::CommandExt;
+        let dir = scratch_dir();
+        let mut cmd = Command::new(repo_bin("roughenough-server"));
+        clean_env(&mut cmd);
+        let p = dir.join("server.yaml");
+        std::fs::write(&p, w.yaml()).map_err(|e| e.to_string())?;
+        cmd.arg(&p);
+        let out = std::fs::File::create(dir.join("stdout")).map_err(|e| e.to_string())?;
+        let err = std::fs::File::create(dir.join("stderr")).map_err(|e| e.to_string())?;
+        cmd.stdin(Stdio::null()).stdout(out).stderr(err);
+        let sigs: Vec<i32> = ignored.to_vec();
+        unsafe {
+            cmd.pre_exec(move || {
+                for s in &sigs {
+                    libc::signal(*s, libc::SIG_IGN);
+                }
+                Ok(())
+            });
+        }
+        let child = cmd.spawn().map_err(|e| format!("spawn server: {}", e))?;
+        let pid = child.id();
+        register_child(pid);
+        let port = w.get("port").and_then(|p| p.parse().ok()).unwrap_or(0);
+        Ok(ServerProc { child: Some(child), pid, dir, port })
+    }
     /// Start the server on a configuration file with exactly this content.
     pub fn start_raw(file_content: &[u8], port: u16) -> Result<ServerProc, String> {
         let dir = scratch_dir();
